@@ -7,7 +7,7 @@ CONC = 'mutual exclusion of std::sync::RwLock (each ActivePeers method body is o
 PROPERTIES = {
     'C04': dict(
         units=['active_peers', 'enum_cm'],
-        extra=[validate.history_c04],
+        extra=[validate.history_c04, validate.mutual_dial_inflight],
         canaries=['active_peers'],
         scope='every clause of C04 for every SEQUENTIAL history of operations on the active-peer set: each real mutating function is '
               'proved equal to a spec transition from an arbitrary pre-state; lemmas prove that every transition preserves the '
@@ -25,7 +25,7 @@ PROPERTIES = {
         units=['active_peers', 'kani_tiebreak', 'enum_cm', 'tls_config'],
         canaries=['active_peers', 'tls_config'],
         counterexample=cex.cex_c05,
-        extra=[validate.history_c04],
+        extra=[validate.history_c04, validate.mutual_dial_inflight],
         scope='the tie-break keeps the connection dialed by the greater PeerId: proved for the real function over all 2^512 id pairs '
               '(Kani, full domain, real derived Ord) and as a Verus contract; convergence lemmas over the contract of add(): both nodes, '
               'both arrival orders -> same surviving dialer, exactly the loser closed, events New or New,Lost(Requested),New, late exit of '
@@ -38,7 +38,7 @@ PROPERTIES = {
         units=['wire', 'kani_wire'],
         canaries=['wire'],
         counterexample=cex.cex_c07,
-        extra=[validate.bincode_golden, validate.frame_boundary, validate.decode_sweep, validate.write_sequence],
+        extra=[validate.bincode_golden, validate.frame_boundary, validate.decode_sweep, validate.write_sequence, validate.end_to_end_fidelity],
         scope='exact byte layout of requests and responses (writer postcondition independent of the reader: preamble(version) ++ '
               'frame(bincode header) ++ frame(body)), lossless round trip and rejection of every strict prefix as lemmas over writer and reader '
               'contracts, readers accept exactly the valid messages and never panic, extensions never travel and decoded messages start with '
@@ -152,7 +152,7 @@ PROPERTIES = {
     'C09': dict(
         units=['active_peers', 'enum_cm'],
         canaries=['active_peers', 'dialing'],
-        extra=[validate.history_c09],
+        extra=[validate.history_c09, validate.panicking_handler],
         scope='ONE sentence of three: an explicit disconnect removes the peer locally at once (one critical section), closes that connection and appends exactly '
               'LostPeer(peer, Requested); afterwards peer(p) is None and rpc(p, _) fails until a new connection is registered; every way a connection can end is mapped '
               'to its documented reason and a handler exit removes exactly its own entry.',
@@ -196,9 +196,9 @@ PROPERTIES = {
         assumptions=['the executable webpki model of unit enum_certs (stated in its docstring)'],
     ),
     'C02': dict(
-        units=['wire', 'kani_wire', 'crypto'],
-        canaries=['wire', 'streams', 'crypto'],
-        extra=[validate.bincode_golden, validate.rpc_pairing, validate.write_sequence],
+        units=['wire', 'kani_wire', 'crypto', 'timeout'],
+        canaries=['wire', 'streams', 'crypto', 'timeout'],
+        extra=[validate.bincode_golden, validate.rpc_pairing, validate.write_sequence, validate.end_to_end_fidelity],
         scope='PER STREAM ONLY: the caller writes exactly the encoding of its request to the send half of ONE freshly opened bidirectional stream, finishes it, and returns exactly '
               '(status, headers, body) decoded from the receive half of that same stream; the serving side decodes one request from its stream, hands exactly that request to the '
               'service AT MOST ONCE (ghost call log), and writes exactly the encoding of the response the handler produced for it to the send half of the same stream; a malformed '
